@@ -521,7 +521,7 @@ def eul2r(phi, theta=None, psi=None, unit='rad'):
     :SymPy: supported
     """
 
-    if np.isscalar(phi):
+    if base.isscalar(phi):
         angles = [phi, theta, psi]
     else:
         angles = base.getvector(phi, 3)
